@@ -16,7 +16,7 @@ THEOREMS = ["install_upgrade_equiv", "upgrade_keeps_definition", "upgrade_port_i
             "every_installed_flag_is_known", "interp_install_is_intended", "written_args_conflict_free",
             "builders_match_source", "network_id_reaches_protocol_strings", "lifecycle_keeps_settings",
             "evm_subcommand_wins", "upgrade_installs_the_regenerated_definition",
-            "testnet_never_queries_mainnet"]
+            "testnet_never_queries_mainnet", "log_limits_as_written"]
 RULE = ("option combinations over 27 parameters (peers: first/local/addrs/urls/testnet/ignore-cache/cache dir; "
         "network id, home-network, log format, upnp, ip, node/metrics/rpc ports, metrics server, owner (incl. upper "
         "case), log-file limits, rewards address, EVM network incl. custom, auto-restart, environment, user, user "
@@ -53,7 +53,7 @@ PARAMS = [
     ("network_id", [None, 5, 255]), ("home", [False, True]), ("log_format", [None, "json", "default"]),
     ("upnp", [False, True]), ("ip", [None, "10.0.0.1"]), ("node_port", [None, 12000]),
     ("metrics_port", [None, 13000]), ("enable_metrics", [False, True]), ("owner", [None, "bob", "Alice Smith"]),
-    ("max_arch", [None, 7]), ("max_log", [None, 9]), ("rewards", [REW_A, REW_B]),
+    ("max_arch", [None, 0, 1, 7, 5000]), ("max_log", [None, 1, 9, 2000]), ("rewards", [REW_A, REW_B]),
     ("evm", ["one", "sepolia", CUSTOM]), ("auto_restart", [False, True]),
     ("env", [None, [["K", "V"], ["RUST_LOG", "a=b,c"]], [["EVM_NETWORK", "arbitrum-sepolia"], ["K", "V"]],
              [["EVM_NETWORK", "arbitrum-one"]], ENV_CUSTOM]),
@@ -226,6 +226,10 @@ def model_term(c, o):
             if ev is None:
                 return "false"
             t += " && agree_evm %s %s %s" % (c_cfg(c, o), c_env(o[which]["env"]), cstr(ev))
+            lg = log_report(r)
+            if lg is None:
+                return "false"
+            t += " && agree_log_limits %s %s %s" % (c_cfg(c, o), cN(lg[0]), cN(lg[1]))
             us, ms, _ = seen_sources(c, r)
             t += " && agree_sources %s %d%%nat 0%%nat 5%%nat 100%%nat %s %s" % (c_cfg(c, o), usable_peers(c), cbool(us), cbool(ms))
     return t
@@ -376,6 +380,11 @@ def contacts(c, which, r):
     return out
 
 
+def log_report(r):
+    m = re.search(r"^VERIF_LOGCFG max_uncompressed_log_files=(\d+) max_log_files=(\d+)$", r.get("dump", ""), re.M)
+    return (int(m.group(1)), int(m.group(2))) if m else None
+
+
 def evm_report(r):
     m = re.search(r'^VERIF_EVM resolved="(.*)"$', r.get("dump", ""), re.M)
     return m.group(1) if m else None
@@ -431,6 +440,22 @@ def effects(c, o, which, r):
         if rec["evm"]["token"].lower() not in low or rec["evm"]["payments"].lower() not in low:
             bad.append("effective custom EVM network does not carry the configured contract addresses")
     out = [("effect-at-intended-location", "%s-time arguments: %s" % (which, "; ".join(bad)))] if bad else []
+    # the limits the log appender is really built with: archives kept <= the written limit (0 => none), plain files
+    # as written
+    lg = log_report(r)
+    if lg is None:
+        out.append(("log-limits-not-effective", "%s-time arguments: the node did not report its log appender limits" % which))
+    else:
+        u, t = lg
+        lb = []
+        if c["max_log"] is not None and u != c["max_log"]:
+            lb.append("keeps %d plain log files, --max-log-files says %d" % (u, c["max_log"]))
+        if c["max_arch"] is not None and t - u != c["max_arch"]:
+            lb.append("keeps up to %d archived log files, --max-archived-log-files says %d" % (t - u, c["max_arch"]))
+        if t < u:
+            lb.append("total %d below the plain-file count %d" % (t, u))
+        if lb:
+            out.append(("log-limits-not-effective", "%s-time arguments: %s" % (which, "; ".join(lb))))
     # the EVM network the node resolves is the one named by the written sub-command, whatever the service
     # environment the manager wrote holds
     ev = evm_report(r)
